@@ -13,7 +13,14 @@ Sub-check client_runs (round 4) drives the same invariants through the entry poi
 uses (insights.client.client: get_machine_id, get_registration_status, handle_registration,
 handle_unregistration, upload - on a real InsightsConnection with a stub HTTP session, platform and legacy
 mode) mixed with the helper-level operations, symlinks planted in mid-history, and the history cut into
-client runs, each interpreted in a freshly forked process (case: {"dirs", "idfile", "legacy", "runs"})."""
+client runs, each interpreted in a freshly forked process (case: {"dirs", "idfile", "legacy", "runs"}).
+
+Round 5: file-system faults while an operation runs.  Optional case keys "users" (per run: the run is the run of
+an unprivileged user - real/effective uid 65534 in the forked process, when the harness is root) and "own" (which
+of the two configuration directories belong to that user; the others answer EACCES), optional operation key
+"fault": "fsize" (the operation runs with RLIMIT_FSIZE = 0: files are still created / truncated, every write
+fails with EFBIG like on a full disk).  An operation that fails with the operating system's error under such a
+fault has returned nothing; the invariants are checked on what it left behind like after any other operation."""
 import os
 import shutil
 import tempfile
@@ -43,7 +50,12 @@ RULE = ("initial state: per configuration directory (current, legacy) absent/pre
         "delete marker, a symlink planted at a marker in mid-history, a second config+connection in the same "
         "run. Non-trivial (client_runs): an identifier compared against one established in an earlier run with "
         ">= 1 client-level register/unregister in the history, or a planted symlink replaced by a client-level "
-        "operation.")
+        "operation. client_runs, faults (2 cases in 5): every writing operation runs with RLIMIT_FSIZE=0 with "
+        "probability 1/4 (create/truncate succeeds, the write fails with EFBIG), every run is the run of an "
+        "unprivileged user (uid 65534) with probability 2/5, to whom none / the current / the legacy / both "
+        "configuration directories belong (EACCES in the others). Non-trivial there: an operation failed under a "
+        "fault while markers exist afterwards, or an identifier was compared in an unprivileged run / after a "
+        "failed identifier operation.")
 ASSUMPTIONS = [
     "constants.registered_files / unregistered_files / machine_id_file are redirected to a temp dir and "
     "generate_machine_id is called with destination_file=<temp>/machine-id (its default is bound at import)",
@@ -68,6 +80,18 @@ ASSUMPTIONS = [
     "call (the client then requests a new one) or when a status check / unregistration / legacy registration "
     "removed or replaced the identifier file (observed on the file); identifiers the client sends to the stub "
     "service (insights_id=, /v1/systems/<id>, machine_id in the create call) count as identifiers returned",
+    "client_runs, injected faults: an operation that ends with an OSError of the code under test while a fault "
+    "is active (RLIMIT_FSIZE=0 for that operation / the run is an unprivileged user's) has failed and returned "
+    "nothing - no identifier is established, no outcome is classified; a forced regeneration drops the expected "
+    "identifier when it is requested, also if it then fails. After it, as after every operation: no operation "
+    "puts the two markers side by side in a directory where they were not side by side before it, planted "
+    "targets are intact, identifiers handed out later equal the established one. Under a fault nothing is "
+    "demanded of the marker an operation reports to have written (a non-root upload ignores EACCES by design), "
+    "and such an operation does not start the 'never coexist from now on' regime by itself",
+    "client_runs: the unprivileged user is real+effective uid/gid 65534 with saved ids 0 (os.setresuid), switched "
+    "on only around calls into the client, so that the harness can plant links / set time stamps as root in "
+    "between; the client never asks for the saved ids. When the harness is not root such runs are interpreted "
+    "as plain runs (label skipped:unprivileged-run(harness-not-root))",
 ]
 EXCLUDED = [
     "identifier operations while the current configuration directory is absent (nothing can be persisted; "
@@ -79,6 +103,11 @@ EXCLUDED = [
     "service during a legacy status check (starts the interactive connection test), HTTP 413 (needs a real "
     "tar archive), upload and legacy registration while the configuration directory is absent (os.chmod / "
     "nothing can be persisted), BASIC authentication without credentials",
+    "faults: writes cut after some bytes (RLIMIT_FSIZE > 0 / ENOSPC in mid-write leave a partial identifier file, "
+    "whose next read is the documented sys.exit on invalid content - outside the statement), identifier or marker "
+    "files unreadable for the run's user, faults other than 'no file can grow' and 'directory not writable' "
+    "(EIO, EROFS, EMFILE, a crash between two system calls), faults in `history` / `first_steps` (they run inside "
+    "the worker process, whose limits and uid are not touched)",
 ]
 
 KINDS = ["absent", "file", "link-file", "link-dangling", "link-dir"]
@@ -207,35 +236,38 @@ class _Sandbox(object):
         _LIVE["tmp"] = None
 
 
-_TERM = []
 _LIVE = {"tmp": None, "pid": None}   # what the running case holds: its temp dir, the process of a client run
 
 
-def _tidy_on_terminate():
-    """Pool workers are stopped with SIGTERM when another worker reports a failure.  Once per worker process a
-    handler is installed that removes what the running case holds (temp dir, forked client run) and leaves at
-    once with os._exit - like the default action, but tidy.  (Raising SystemExit instead is not enough:
-    Hypothesis records a SystemExit as a failing example and carries on, the signal is used up, the worker
-    goes idle and Pool.terminate() waits for it forever.)"""
-    if _TERM and _TERM[0] == os.getpid():
-        return
-    # per process: the parent runs the regression cases before it forks the workers, which inherit the list
-    _TERM[:] = [os.getpid()]
+def _on_terminate(signum, frame):
+    import signal
+    pid, tmp = _LIVE["pid"], _LIVE["tmp"]
+    if pid:
+        try:
+            os.kill(pid, signal.SIGKILL)
+            os.waitpid(pid, 0)      # it must not write into the temp dir while that is removed
+        except OSError:
+            pass
+    if tmp:
+        shutil.rmtree(tmp, ignore_errors=True)
+    os._exit(143)
+
+
+def _tidy_on_terminate(on=True):
+    """Pool workers are stopped with SIGTERM when another worker reports a failure (and at the end of every
+    sub-check).  *While a case is running* in a worker a handler is installed that removes what the case holds
+    (temp dir, forked client run) and leaves at once with os._exit - like the default action, but tidy.
+    (Raising SystemExit instead is not enough: Hypothesis records a SystemExit as a failing example and carries
+    on, the signal is used up, the worker goes idle and Pool.terminate() waits for it forever.)
+    Between cases and when the worker is idle the default action is back in force (round 5): a Python-level
+    handler only runs when the interpreter gets back to byte code, and a SIGTERM that arrives just before an
+    idle worker blocks in sem_wait() on the pool's input lock - which Pool.terminate() holds - sets the flag,
+    does not interrupt the wait, and terminate() joins that worker forever (seen once in ~40 runs at load 100).
+    Inside a case every blocking call is finite (pipe / waitpid of a forked run)."""
     import multiprocessing
     import signal
     if multiprocessing.current_process().name != "MainProcess":
-        def _exit(signum, frame):
-            pid, tmp = _LIVE["pid"], _LIVE["tmp"]
-            if pid:
-                try:
-                    os.kill(pid, signal.SIGKILL)
-                    os.waitpid(pid, 0)      # it must not write into the temp dir while that is removed
-                except OSError:
-                    pass
-            if tmp:
-                shutil.rmtree(tmp, ignore_errors=True)
-            os._exit(143)
-        signal.signal(signal.SIGTERM, _exit)
+        signal.signal(signal.SIGTERM, _on_terminate if on else signal.SIG_DFL)
 
 
 def check(case):
@@ -414,6 +446,7 @@ def check(case):
             setattr(C, k, v)
         if sb is not None:
             sb.close()
+        _tidy_on_terminate(False)
 
 
 # ---------------------------------------------------------------------------------------------
@@ -449,6 +482,10 @@ _ANSWERS = {
     "notfound": (404, "{}"),
 }
 ID_DROPPING = ("c_status", "c_unregister", "c_register")   # may unregister the host locally (drops the identifier)
+# operations that may run while no file can grow (the others do not write, or are actions of the harness)
+FSIZE_OPS = ("c_id", "read", "regen", "c_status", "c_unregister", "c_register", "c_upload", "register", "unregister",
+             "del_reg", "del_unreg")
+UNPRIV = 65534      # uid / gid of the unprivileged user of a client run (needs no passwd entry)
 
 
 def _read_bytes(path):
@@ -528,12 +565,16 @@ def _run_ops(sb, case, r, state):
     """One client run (case["runs"][r]), executed in a fresh process: redirect the client's constants into
     the sandbox, build config + connection, interpret the operations, check the invariants after every
     step.  `state` is the JSON model carried from run to run (the only thing besides the file system)."""
+    import errno
     import json
     import logging
     import re
+    import resource
+    import signal
     import sys
     import types
     import requests
+    from vp.core import _touches_repo
     from insights.client import utilities as U
     from insights.client import client as CL
     from insights.client import connection as CN
@@ -601,8 +642,40 @@ def _run_ops(sb, case, r, state):
 
     labels = set(state["labels"])
     sb.links = [tuple(l) for l in state["links"]]
-    cur = {"step": 0, "op": None}
+    cur = {"step": 0, "op": None, "fsize": False}
     wire = {}
+
+    # -- injected file-system faults (round 5).  The run may be the run of an unprivileged user (real and
+    # effective uid/gid UNPRIV; the saved ids stay 0 so that the *harness* can plant symlinks, set time stamps and
+    # look at the directories in between - the client code never asks for them), and a single operation may run
+    # while no file can grow (RLIMIT_FSIZE = 0: open(.., 'w') still creates / truncates, the write fails with
+    # EFBIG - what a full disk or an exhausted quota does).  Code under test only ever runs inside client_call().
+    users = case.get("users") or []
+    user_run = bool(users[r]) if r < len(users) else False
+    if user_run and os.getuid() != 0:
+        labels.add("skipped:unprivileged-run(harness-not-root)")    # the run is interpreted as a plain run
+        user_run = False
+    if user_run:
+        labels.add("unprivileged-run")
+        os.setgroups([])
+    fs_soft, fs_hard = resource.getrlimit(resource.RLIMIT_FSIZE)
+    signal.signal(signal.SIGXFSZ, signal.SIG_IGN)
+
+    def client_call(fn, *a, **kw):
+        fsize = cur["fsize"]
+        if user_run:
+            os.setresgid(UNPRIV, UNPRIV, 0)
+            os.setresuid(UNPRIV, UNPRIV, 0)
+        if fsize:
+            resource.setrlimit(resource.RLIMIT_FSIZE, (0, fs_hard))
+        try:
+            return fn(*a, **kw)
+        finally:
+            if fsize:
+                resource.setrlimit(resource.RLIMIT_FSIZE, (fs_soft, fs_hard))
+            if user_run:
+                os.setresuid(0, 0, 0)
+                os.setresgid(0, 0, 0)
 
     def fail(msg):
         raise Violation(msg, run=r, step=cur["step"], op=cur["op"], markers=sb.snapshot(),
@@ -631,6 +704,9 @@ def _run_ops(sb, case, r, state):
         if exp is not None and state["expect_run"] < r:
             labels.add("id-stable-across-runs")
             state["nt_cross_run"] = True
+        if exp is not None and (user_run or state.get("id_op_failed")):
+            labels.add("id-compared:" + ("unprivileged-run" if user_run else "after-a-failed-identifier-op"))
+            state["nt_fault_id"] = True
         establish(got)
         return None
 
@@ -711,6 +787,9 @@ def _run_ops(sb, case, r, state):
             return Session()
 
     def connect():
+        return client_call(_connect)
+
+    def _connect():
         cfg = InsightsConfig(legacy_upload=legacy, auto_config=False, authmethod="CERT", retries=1,
                              base_url="localhost.invalid/api", obfuscate=False,
                              remove_file=os.path.join(sb.tmp, "remove.conf"),
@@ -723,18 +802,18 @@ def _run_ops(sb, case, r, state):
         return cfg, Conn(cfg)
     cfg, conn = connect()
 
-    for step, op in enumerate(ops):
-        cur["step"], cur["op"] = step, op
-        wire.update(n=0, posts=0, get=None, served412=False, fail=None)
+    etc = os.path.join(sb.tmp, "etc")
+
+    def perform(op, id_before):
+        """interpret one operation; returns (what it did to the registration: "register" / "unregister" / None,
+        skipped?).  An OSError of the code under test leaves through here (see below)."""
+        nonlocal cfg, conn
         kind = op["op"]
-        cls = None            # "register" / "unregister": what the operation did to the host's registration
-        was_link = dict((p, os.path.islink(p)) for p in sb.reg + sb.unreg)
-        id_before = wire["idbytes"] = _read_bytes(sb.idfile)
+        cls = None
         if kind in ("c_id", "read", "regen"):
             if not dir0:
                 labels.add("skipped:id-op-without-config-dir")
-                continue
-            set_rhsm(op.get("rhsm"))
+                return None, True
             before = None
             if kind != "regen" and id_before is not None:
                 try:
@@ -746,19 +825,22 @@ def _run_ops(sb, case, r, state):
                     os.utime(sb.idfile, (OLD, OLD))
                     s = os.lstat(sb.idfile)
                     before = (id_before, s.st_ino, s.st_mtime_ns)
+            prev = state["expect_id"]
+            if kind == "regen":
+                state["expect_id"] = None       # a new identifier is explicitly requested (also when that fails)
+            set_rhsm(op.get("rhsm"))
             try:
                 if kind == "c_id":
-                    got = CL.get_machine_id()
+                    got = client_call(CL.get_machine_id)
                 else:
-                    got = U.generate_machine_id(new=(kind == "regen"))
+                    got = client_call(U.generate_machine_id, new=(kind == "regen"))
             except SystemExit as e:
                 fail("identifier %s exited the client (code %r)" % (kind, e.code))
             finally:
                 set_rhsm(None)
             if kind == "regen":
                 labels.add("regen" + (":rhsm-id" if op.get("rhsm") not in (None, "error") else ""))
-                known = got == state["expect_id"] or got in state["seen_ids"]
-                state["expect_id"] = None       # a new identifier was explicitly requested
+                known = got == prev or got in state["seen_ids"]
                 msg = id_problem(got, "returned by a forced regeneration")
                 if msg:
                     fail(msg)
@@ -776,7 +858,7 @@ def _run_ops(sb, case, r, state):
                         fail("a read rewrote the existing identifier file (content %r -> %r)" % (before[0], raw))
                     labels.add("read:file-untouched")
         elif kind == "c_status":
-            ret = CL.get_registration_status(cfg, conn)
+            ret = client_call(CL.get_registration_status, cfg, conn)
             if legacy:
                 if isinstance(ret, dict) and not ret.get("unreachable"):
                     cls = {True: "register", False: "unregister"}.get(ret.get("status"))
@@ -790,7 +872,7 @@ def _run_ops(sb, case, r, state):
         elif kind == "c_unregister":
             cfg.force = bool(op.get("force"))
             try:
-                ret = CL.handle_unregistration(cfg, conn)
+                ret = client_call(CL.handle_unregistration, cfg, conn)
             finally:
                 cfg.force = False
             if ret is True or (not legacy and op.get("force")):
@@ -799,10 +881,10 @@ def _run_ops(sb, case, r, state):
         elif kind == "c_register":
             if legacy and not dir0:
                 labels.add("skipped:legacy-register-without-config-dir")
-                continue
+                return None, True
             cfg.register = bool(op.get("reg"))
             try:
-                ret = CL.handle_registration(cfg, conn)
+                ret = client_call(CL.handle_registration, cfg, conn)
             finally:
                 cfg.register = False
             if legacy:
@@ -814,32 +896,32 @@ def _run_ops(sb, case, r, state):
         elif kind == "c_upload":
             if legacy:
                 labels.add("skipped:legacy-upload")
-                continue
+                return None, True
             if not dir0:
                 labels.add("skipped:upload-without-config-dir")
-                continue
+                return None, True
             try:
-                CL.upload(cfg, conn, os.path.join(sb.tmp, "archive.tar.gz"), CONTENT_TYPE)
+                client_call(CL.upload, cfg, conn, os.path.join(sb.tmp, "archive.tar.gz"), CONTENT_TYPE)
                 cls = "register"         # "upload = registration on platform"
             except RuntimeError as e:
                 if str(e) != "Upload failed.":
                     raise
             labels.add("c_upload:%s->%s" % (op.get("code"), "accepted" if cls else "failed"))
         elif kind == "register":
-            U.write_registered_file()
+            client_call(U.write_registered_file)
             cls = "register"
         elif kind == "unregister":
             if op.get("date") is None:
-                U.write_unregistered_file()
+                client_call(U.write_unregistered_file)
             else:
-                U.write_unregistered_file(date=op["date"])
+                client_call(U.write_unregistered_file, date=op["date"])
             cls = "unregister"
         elif kind == "del_reg":
-            U.delete_registered_file()
+            client_call(U.delete_registered_file)
         elif kind == "del_unreg":
-            U.delete_unregistered_file()
+            client_call(U.delete_unregistered_file)
         elif kind == "plant":
-            if sb.plant(op["dir"], op["marker"], op["kind"], "r%d_s%d" % (r, step)):
+            if sb.plant(op["dir"], op["marker"], op["kind"], "r%d_s%d" % (r, cur["step"])):
                 labels.add("planted-mid-history:" + op["kind"])
                 # the two markers may now sit side by side through no doing of the client: coexistence is
                 # demanded again from the next register / unregister operation on
@@ -848,11 +930,51 @@ def _run_ops(sb, case, r, state):
             cfg, conn = connect()
         else:
             raise HarnessError("unknown op %r" % (kind,))
+        return cls, False
+
+    def together():
+        return [os.path.lexists(sb.reg[i]) and os.path.lexists(sb.unreg[i]) for i in range(2)]
+
+    for step, op in enumerate(ops):
+        cur["step"], cur["op"] = step, op
+        wire.update(n=0, posts=0, get=None, served412=False, fail=None)
+        kind = op["op"]
+        fsize_on = cur["fsize"] = op.get("fault") == "fsize" and kind in FSIZE_OPS
+        # an operation that runs under an injected fault (no file can grow / as an unprivileged user)
+        faulted = kind != "plant" and (fsize_on or user_run)
+        was_link = dict((p, os.path.islink(p)) for p in sb.reg + sb.unreg)
+        were_together = together()
+        id_before = wire["idbytes"] = _read_bytes(sb.idfile)
+        failed = None
+        try:
+            cls, skipped = perform(op, id_before)
+        except (OSError, IOError) as e:
+            # Under an injected fault the operation may fail with the error of the operating system: it has then
+            # returned nothing (no identifier, no outcome), but what it left behind is subject to the invariants
+            # like after any other operation.  Without a fault the error is not expected (-> reported by core).
+            if not faulted or isinstance(e, requests.RequestException) or not _touches_repo(e):
+                raise
+            failed = errno.errorcode.get(e.errno, str(e.errno))
+            cls, skipped = None, False
+        finally:
+            cur["fsize"] = False
+        if skipped:
+            continue
+        if faulted:
+            how = "+".join((["unprivileged"] if user_run else []) + (["no-growth"] if fsize_on else []))
+            labels.add("fault:%s:%s->%s" % (how, kind, "failed:" + failed if failed else "completed"))
+            if failed and kind in ("c_id", "read", "regen"):
+                state["id_op_failed"] = True
         if kind not in ("c_id", "read", "regen", "c_status", "c_unregister", "c_register", "c_upload"):
             labels.add(kind)
         if wire["fail"]:
             fail(wire["fail"])
-        if cls:
+        if cls and faulted:
+            # the outcome says "registered" / "unregistered", but under the fault the record may legitimately be
+            # incomplete (a non-root upload ignores EACCES by design): nothing is demanded of the marker written;
+            # coexistence, planted targets and the identifier are checked below as after every operation
+            labels.add("fault:%s-reported-under-fault" % cls)
+        elif cls:
             state["regop_seen"] = True
             state["n_" + cls] += 1
             client_level = kind.startswith("c_")
@@ -860,11 +982,11 @@ def _run_ops(sb, case, r, state):
                 if os.path.islink(p):
                     fail("after %s (%s) the marker %s is still a symlink"
                          % (kind, "host registered" if cls == "register" else "host unregistered",
-                            os.path.relpath(p, os.path.join(sb.tmp, "etc"))))
+                            os.path.relpath(p, etc)))
                 if was_link[p]:
                     if not os.path.isfile(p):
                         fail("the symlink planted at %s was not replaced by a regular marker file"
-                             % os.path.relpath(p, os.path.join(sb.tmp, "etc")))
+                             % os.path.relpath(p, etc))
                     labels.add("link-replaced" + (":client-level" if client_level else ""))
                     if client_level:
                         state["nt_client_link"] = True
@@ -877,11 +999,24 @@ def _run_ops(sb, case, r, state):
                 if state["expect_id"] is not None or id_before is not None:
                     labels.add("id-dropped-by:" + kind)
                 state["expect_id"] = None
+        now_together = together()
         if state["regop_seen"]:
             for i in range(2):
-                if os.path.lexists(sb.reg[i]) and os.path.lexists(sb.unreg[i]):
-                    fail("'registered' and 'unregistered' markers exist together in %s"
-                         % os.path.basename(sb.dirs[i]))
+                if now_together[i]:
+                    fail("'registered' and 'unregistered' markers exist together in %s%s"
+                         % (os.path.basename(sb.dirs[i]),
+                            " after %s failed with %s" % (kind, failed) if failed else ""))
+        if kind != "plant":
+            # no operation of the client - completed or cut short by a fault - puts the two markers side by side
+            # in a directory where they were not side by side before it
+            for i in range(2):
+                if now_together[i] and not were_together[i]:
+                    fail("%s%s left 'registered' and 'unregistered' markers together in %s (they were not "
+                         "together before it)" % (kind, " (failed with %s)" % failed if failed else "",
+                                                  os.path.basename(sb.dirs[i])))
+        if failed and any(os.path.lexists(p) for p in sb.reg + sb.unreg):
+            labels.add("nt:markers-present-after-op-failed-under-fault")
+            state["nt_fault_markers"] = True
         msg = sb.targets_intact()
         if msg:
             fail(msg)
@@ -902,9 +1037,24 @@ def check_runs(case):
         os.mkdir(os.path.join(sb.tmp, "lib"))
         with open(os.path.join(sb.tmp, "archive.tar.gz"), "wb") as f:
             f.write(b"\x1f\x8b not really an archive")
+        users = [bool(u) for u in (case.get("users") or [])][:len(case["runs"])]
+        own = list(case.get("own") or [False, False])
+        if any(users) and os.getuid() == 0:
+            # some runs are runs of an unprivileged user: everything is world-readable like below /etc, and the
+            # configuration directories named in "own" belong to that user (the others stay root's: EACCES)
+            for top, dnames, fnames in os.walk(sb.tmp):
+                os.chmod(top, 0o755)
+                for n in fnames:
+                    if not os.path.islink(os.path.join(top, n)):
+                        os.chmod(os.path.join(top, n), 0o644)
+            for i in range(2):
+                if own[i] and os.path.isdir(sb.dirs[i]):
+                    os.chown(sb.dirs[i], UNPRIV, UNPRIV)
         dir0 = case["dirs"][0].get("present", True)
         idf = case.get("idfile") if dir0 else None
         labels = set(["mode:legacy" if case.get("legacy") else "mode:platform", "runs:%d" % len(case["runs"])])
+        if any(users):
+            labels.add("own:" + "".join("u" if o else "r" for o in own))
         labels.add("id-init:" + (idf["form"] + ("" if idf["form"] == "empty" or is_v4(idf["hex"]) else ":non-v4")
                                  if idf else "absent"))
         for i, d in enumerate(case["dirs"]):
@@ -915,6 +1065,7 @@ def check_runs(case):
         state = {"expect_id": None, "expect_run": 0, "seen_ids": [], "regop_seen": False,
                  "n_register": 0, "n_unregister": 0, "n_client_register": 0, "n_client_unregister": 0,
                  "nt_cross_run": False, "nt_client_link": False,
+                 "id_op_failed": False, "nt_fault_id": False, "nt_fault_markers": False,
                  "labels": sorted(labels), "links": [list(l) for l in sb.links]}
         if idf and idf["form"] != "empty" and is_v4(idf["hex"]):
             state["expect_id"] = str(uuid.UUID(idf["hex"]))
@@ -925,12 +1076,15 @@ def check_runs(case):
             labels.add("nt:id-compared-across-runs")
         if state["nt_client_link"]:
             labels.add("nt:symlink-replaced-by-client-level-op")
+        if state["nt_fault_id"]:
+            labels.add("nt:id-compared-under-or-after-fault")
         nt = bool((state["nt_cross_run"] and (state["n_client_register"] or state["n_client_unregister"]))
-                  or state["nt_client_link"])
+                  or state["nt_client_link"] or state["nt_fault_id"] or state["nt_fault_markers"])
         return {"nontrivial": nt, "labels": sorted(labels)}
     finally:
         if sb is not None:
             sb.close()
+        _tidy_on_terminate(False)
 
 
 # ---------------------------------------------------------------------------------------------
@@ -1046,8 +1200,18 @@ def _runs_case(draw, max_runs, max_ops):
     if dirs[0]["present"]:
         names += ["c_id"] * 7 + ["read"] * 2 + ["regen"]
     op = st.sampled_from(names).flatmap(lambda n: builders[n])
+    # file-system faults (2 cases in 5): any writing operation may run while no file can grow (1 in 4), any run may
+    # be the run of an unprivileged user (2 in 5) to whom none / one / both configuration directories belong
+    faulty = draw(st.sampled_from([False, False, False, True, True]))
+    if faulty:
+        op = st.tuples(op, st.integers(0, 3)).map(
+            lambda t: dict(t[0], fault="fsize") if t[1] == 0 and t[0]["op"] in FSIZE_OPS else t[0])
     runs = draw(st.lists(st.lists(op, min_size=1, max_size=max_ops), min_size=1, max_size=max_runs))
-    return {"dirs": dirs, "idfile": idfile, "legacy": legacy, "runs": runs}
+    case = {"dirs": dirs, "idfile": idfile, "legacy": legacy, "runs": runs}
+    if faulty:
+        case["own"] = [draw(st.booleans()), draw(st.booleans())]
+        case["users"] = [draw(st.sampled_from([0, 0, 0, 1, 1])) for _ in runs]
+    return case
 
 
 def strat_runs(tier):
@@ -1098,6 +1262,35 @@ REGRESSIONS = [
                   {"op": "c_status", "srv": "conflict"}, {"op": "c_unregister", "srv": "known", "force": False, "srv2": "ok"}],
                  [{"op": "c_unregister", "srv": "known", "force": True, "srv2": "ok"}, {"op": "regen", "rhsm": None},
                   {"op": "c_register", "srv": "known", "reg": True, "post": [201]}, {"op": "c_id", "rhsm": None}]]}),
+    Reg("runs-faults-platform", "client_runs", {
+        "dirs": [{"present": True, "registered": "link-file", "unregistered": "absent"},
+                 {"present": True, "registered": "absent", "unregistered": "file"}],
+        "idfile": None, "legacy": False, "own": [True, False], "users": [0, 1, 0],
+        "runs": [[{"op": "c_id", "rhsm": None, "fault": "fsize"}, {"op": "c_id", "rhsm": None},
+                  {"op": "c_status", "srv": "known", "fault": "fsize"}, {"op": "unregister", "date": None},
+                  {"op": "register", "fault": "fsize"}, {"op": "c_upload", "code": 202, "fault": "fsize"},
+                  {"op": "c_id", "rhsm": None}],
+                 [{"op": "c_id", "rhsm": None}, {"op": "c_status", "srv": "unknown"}, {"op": "c_id", "rhsm": None},
+                  {"op": "c_upload", "code": 202}, {"op": "c_unregister", "srv": "known", "force": True, "srv2": "ok"},
+                  {"op": "c_id", "rhsm": None}, {"op": "regen", "rhsm": None}, {"op": "register"},
+                  {"op": "plant", "dir": 1, "marker": "registered", "kind": "link-dangling"},
+                  {"op": "unregister", "date": "2020-01-01", "fault": "fsize"}],
+                 [{"op": "c_id", "rhsm": None}, {"op": "c_status", "srv": "known"},
+                  {"op": "regen", "rhsm": None, "fault": "fsize"}, {"op": "c_id", "rhsm": None}]]}),
+    Reg("runs-faults-legacy", "client_runs", {
+        "dirs": [{"present": True, "registered": "absent", "unregistered": "link-dir"},
+                 {"present": True, "registered": "file", "unregistered": "absent"}],
+        "idfile": {"hex": _H, "form": "empty"}, "legacy": True, "own": [False, True], "users": [1, 0, 1],
+        "runs": [[{"op": "c_id", "rhsm": None}, {"op": "read", "rhsm": "6f7a2a3e-1111-4222-8333-444455556666"},
+                  {"op": "c_status", "srv": "registered"}, {"op": "register"}, {"op": "del_unreg"},
+                  {"op": "c_register", "srv": "noentry", "reg": True, "post": [201]}],
+                 [{"op": "c_register", "srv": "noentry", "reg": True, "post": [409, 201], "fault": "fsize"},
+                  {"op": "c_id", "rhsm": None}, {"op": "c_status", "srv": "registered", "fault": "fsize"},
+                  {"op": "c_unregister", "srv": "registered", "force": False, "srv2": "ok", "fault": "fsize"},
+                  {"op": "c_id", "rhsm": None}, {"op": "c_status", "srv": "unregistered"}],
+                 [{"op": "c_id", "rhsm": None}, {"op": "c_id", "rhsm": None, "fault": "fsize"},
+                  {"op": "c_unregister", "srv": "noentry", "force": True, "srv2": "down"},
+                  {"op": "c_status", "srv": "gone412"}, {"op": "unregister", "date": None}]]}),
     Reg("absent-dirs", "history", {
         "dirs": [{"present": False}, {"present": False}], "idfile": None,
         "ops": [{"op": "register"}, {"op": "unregister", "date": None}, {"op": "del_reg"}, {"op": "del_unreg"}]}),
